@@ -645,3 +645,77 @@ def has_duplicate_attrs(text: str | bytes) -> bool:
                     seen.add(names)
         return any(walk(c) for c in node.children)
     return walk(root)
+
+
+# ---------------------------------------------------------------------------
+# line_info(text): indentation facts for C18_Indent (own-line comments and closing delimiters)
+
+_CLOSERS = {"}": "{", "]": "[", ")": "("}
+
+
+def line_info(text: str | bytes) -> list[dict]:
+    """One record per line that starts with an own-line comment, a closing delimiter or code:
+    [kind: "comment" | "close" | "code" | "soft" (operator / in / then / else: constrains nothing), ind, open_ind]."""
+    root, b = cst(text)
+    leaves: list = []
+    _leaves(root, b, leaves)
+    leaves.sort(key=lambda x: (x[2], x[3]))
+    line_starts = [0]
+    for i, ch in enumerate(b):
+        if ch == 10:
+            line_starts.append(i + 1)
+
+    def line_of(pos: int) -> int:
+        lo, hi = 0, len(line_starts) - 1
+        while lo < hi:
+            mid = (lo + hi + 1) // 2
+            if line_starts[mid] <= pos:
+                lo = mid
+            else:
+                hi = mid - 1
+        return lo
+
+    def indent_of_line(ln: int) -> int:
+        s = line_starts[ln]
+        e = s
+        while e < len(b) and b[e] == 32:
+            e += 1
+        return e - s
+    out: list[dict] = []
+    seen_lines: set = set()
+    skip_until = -1            # lines covered by a multi-line token (indented string body, block comment) are not judged
+    for kind, cls, s, e, t, q in leaves:
+        ln = line_of(s)
+        first_on_line = b[line_starts[ln]:s].strip(b" ") == b""
+        if first_on_line and ln not in seen_lines and ln > skip_until and q == 0:
+            seen_lines.add(ln)
+            txt = b[s:e].decode("utf-8", "replace")
+            rec = {"ind": s - line_starts[ln], "open_ind": 0, "kind": "code", "n": ln, "at": s}
+            if kind == "c":
+                rec["kind"] = "comment"
+            elif txt in _CLOSERS and cls == "dl":
+                # the opener: the matching delimiter token among the siblings of this token's CST node
+                node = root.descendant_for_byte_range(s, e)
+                op = None
+                par = node.parent if node is not None else None
+                if par is not None:
+                    for c in par.children:
+                        if c.type == _CLOSERS[txt] and c.start_byte < s:
+                            op = c
+                    # formals / binding_set wrappers: the brace may belong to the grand-parent
+                if op is None and par is not None and par.parent is not None:
+                    for c in par.parent.children:
+                        if c.type == _CLOSERS[txt] and c.start_byte < s:
+                            op = c
+                if op is not None:
+                    rec["kind"] = "close"
+                    rec["open_ind"] = indent_of_line(line_of(op.start_byte))
+                else:
+                    rec["kind"] = "soft"
+            elif cls == "op" or (cls == "kw" and txt in ("in", "then", "else", "or")) or txt in (":", ";", ",", ".", "@", "=", "?"):
+                rec["kind"] = "soft"
+            out.append(rec)
+        end_ln = line_of(max(s, e - 1))
+        if end_ln > ln:
+            skip_until = max(skip_until, end_ln if kind == "c" else end_ln)
+    return out
